@@ -57,11 +57,28 @@ def run_case(c, out):
                         integer_positions=bool(c["intpos"]), additional_data=ad, progress_bar=False)
         out.append("BUILD ok")
         pre = describe(b.strategy, comm_fn)
-        b.run()
     except Exception as e:  # noqa: BLE001
         if out[-1] != "BUILD ok":
             out.append("BUILD ok")
         out.append("OP 0 err %s" % classify(e))
+        out.append("END")
+        return
+    try:
+        b.run()
+    except Exception as e:  # noqa: BLE001
+        # the run stopped: the structure it leaves behind is still described (the wiring clauses hold at any time)
+        out.append("OP 0 err %s" % classify(e))
+        try:
+            # only when the tree was set up completely and the first update (on the synthetic first row) went through: an
+            # error raised inside setup or inside that first update leaves a half-built structure (e.g. the sub-strategy
+            # columns of the universes are written at the end of an update) to which the clauses do not apply
+            strategies = [m for m in b.strategy.members if isinstance(m, bt.core.StrategyBase)]
+            if all(getattr(m, "now", None) not in (None, 0) for m in strategies) and b.strategy.now > b.dates[0]:
+                post = describe(b.strategy, comm_fn)
+                out.append("WJSON pre " + json.dumps(pre, separators=(",", ":")))
+                out.append("WJSON post " + json.dumps(post, separators=(",", ":")))
+        except Exception:  # noqa: BLE001
+            pass
         out.append("END")
         return
     out.append("OP 0 ok nan")
